@@ -1,5 +1,6 @@
 // nwv: correspondence harness driving the real narwhal code (path deps on /repo/crates/*).
 // Usage: nwv <driver> <cases.json> <out.json>
+mod client_drv;
 mod codec_drv;
 mod framing_drv;
 mod outbound_drv;
@@ -27,6 +28,7 @@ fn main() {
     "server" => server_drv::run(&cases),
     "outbound" => outbound_drv::run(&cases),
     "pool" => pool_drv::run(&cases),
+    "client" => client_drv::run(&cases),
     other => {
       eprintln!("unknown driver {other}");
       std::process::exit(2);
